@@ -601,6 +601,23 @@ func (iw *isoWorld) runCase(run *sim.Run, i int) {
 		}
 		app.OracleKeeper.SetValidatorStatus(ctx, w.Vals[v].Val, oracletypes.NewValidatorStatus(active[v], w.Time))
 	}
+	// a validator jailed after it signed the last commit is still a voter of that commit (the validator-set
+	// update takes effect two blocks later) and still oracle-active: it is paid like any other active voter
+	if nVals > 1 && rng.Chance(1, 4) {
+		for v := range active {
+			if rng.Chance(1, 3) {
+				func() {
+					defer func() { recover() }()
+					if err := app.StakingKeeper.Jail(ctx, sdk.ConsAddress(sim.ConsAddrOf(w.Vals[v]))); err == nil {
+						run.Count("iso:jailed-validator-in-world", 1)
+						if active[v] {
+							run.Count("iso:jailed-but-oracle-active-validator", 1)
+						}
+					}
+				}()
+			}
+		}
+	}
 	var votes []abci.VoteInfo
 	var voters []ref.Voter
 	var voterVal []int
@@ -1201,7 +1218,7 @@ func main() {
 		"iso:oracle-community-tax>0", "iso:oracle-pct=0", "iso:oracle-pct=100", "iso:tss-pct=0", "iso:tss-pct=100", "iso:tax=0", "iso:tax=1",
 		"iso:pool-empty", "iso:pool-multi-denom", "iso:vote-from-unknown-address", "iso:no-current-group", "iso:tss-no-eligible-member",
 		"iso:tss-members-paid", "iso:tss-dust-to-community>0", "iso:member-active-without-de-excluded", "iso:member-active-consumed-de-excluded",
-		"iso:member-inactive-with-de-excluded", "iso:inactive-validator-got-zero", "iso:non-current-group-present",
+		"iso:member-inactive-with-de-excluded", "iso:inactive-validator-got-zero", "iso:non-current-group-present", "iso:jailed-but-oracle-active-validator",
 		"full:blocks", "full:oracle-share>0", "full:tss-members-paid", "full:order-sensitive-block(oracle>0,tss>0)", "full:absent-voter",
 		"full:inactive-validator-among-voters", "full:pool-multi-denom", "full:invariant-sweeps",
 	} {
